@@ -39,6 +39,7 @@ Qed.
 Section Verify.
 Variable H : bytes -> id.
 Variable bt : blobtab.
+Variable ow : overwrite.
 
 (* content addressing: every stored blob is stored under its hash *)
 Definition repo_ok : Prop := forall i b, blob_get bt i = Some b -> H b = i.
@@ -228,29 +229,29 @@ Qed.
 
 Definition job_wf (e : entry) : Prop := exists d, wf_node (e_node e) d /\ sp_free (n_content (e_node e)).
 
-Lemma job_ok_intact e : repo_ok -> job_wf e -> job_ok H size_of e = e_intact bt e.
+Lemma job_ok_intact e : repo_ok -> job_wf e -> job_ok H size_of ow e = e_intact bt e.
 Proof.
   intros Hok [d [Hwf Hsp]]. pose proof Hwf as (Hd & _ & _).
-  unfold job_ok, e_intact, intact. rewrite Hd.
+  unfold job_ok, verify_trust, e_intact, intact. rewrite Hd.
   destruct (e_obj e) as [| | |f] eqn:Eo; try reflexivity.
   destruct (bytes_eqb f d) eqn:Ef.
   - apply bytes_eqb_spec in Ef. subst f.
-    destruct (verify_file H size_of true false false (FReg d) (e_node e)) eqn:E; [|reflexivity].
-    exfalso. apply (verify_fast_iff (e_node e) d d false Hok Hsp Hwf); [reflexivity | exact E].
+    destruct (verify_file H size_of true false (e_mteq e) (FReg d) (e_node e)) eqn:E; [|reflexivity].
+    exfalso. apply (verify_fast_iff (e_node e) d d (e_mteq e) Hok Hsp Hwf); [reflexivity | exact E].
   - assert (Hne : f <> d) by (intros ->; rewrite bytes_eqb_refl in Ef; discriminate).
-    rewrite (verify_fast_changed _ d f false Hok Hsp Hwf Hne). reflexivity.
+    rewrite (verify_fast_changed _ d f (e_mteq e) Hok Hsp Hwf Hne). reflexivity.
 Qed.
 
 Lemma run_abort_spec js : forall cnt,
-  fst (run_abort H size_of js cnt) = forallb (job_ok H size_of) js /\
-  (fst (run_abort H size_of js cnt) = true -> snd (run_abort H size_of js cnt) = (cnt + N.of_nat (length js))%N) /\
-  (fst (run_abort H size_of js cnt) = false ->
-     (snd (run_abort H size_of js cnt) < cnt + N.of_nat (length js))%N /\
-     (snd (run_abort H size_of js cnt) <= cnt + N.of_nat (length (filter (job_ok H size_of) js)))%N).
+  fst (run_abort H size_of ow js cnt) = forallb (job_ok H size_of ow) js /\
+  (fst (run_abort H size_of ow js cnt) = true -> snd (run_abort H size_of ow js cnt) = (cnt + N.of_nat (length js))%N) /\
+  (fst (run_abort H size_of ow js cnt) = false ->
+     (snd (run_abort H size_of ow js cnt) < cnt + N.of_nat (length js))%N /\
+     (snd (run_abort H size_of ow js cnt) <= cnt + N.of_nat (length (filter (job_ok H size_of ow) js)))%N).
 Proof.
   induction js as [|j r IH]; intros cnt; cbn [run_abort forallb filter].
   - cbn. repeat split; try discriminate. lia.
-  - destruct (job_ok H size_of j) eqn:Ej; cbn [andb].
+  - destruct (job_ok H size_of ow j) eqn:Ej; cbn [andb].
     + destruct (IH (cnt + 1)%N) as (I1 & I2 & I3). repeat split.
       * exact I1.
       * intros Ht. rewrite (I2 Ht). cbn [length]. lia.
@@ -277,7 +278,7 @@ Qed.
    on success every job was counted, on failure fewer than all and at most the intact ones *)
 Lemma verify_all_iff fl es :
   repo_ok -> jobs_wf fl es ->
-  let r := verify_files_abort H size_of fl es in
+  let r := verify_files_abort H size_of ow fl es in
   (fst r = true <-> forall e, In e (jobs fl es) -> e_intact bt e = true) /\
   (fst r = true -> snd r = N.of_nat (length (jobs fl es))) /\
   (fst r = false -> (snd r < N.of_nat (length (jobs fl es)))%N /\
@@ -285,7 +286,7 @@ Lemma verify_all_iff fl es :
 Proof.
   intros Hok Hwf r. subst r. unfold verify_files_abort.
   destruct (run_abort_spec (jobs fl es) 0%N) as (I1 & I2 & I3).
-  assert (Hext : forall e, In e (jobs fl es) -> job_ok H size_of e = e_intact bt e)
+  assert (Hext : forall e, In e (jobs fl es) -> job_ok H size_of ow e = e_intact bt e)
     by (intros e He; apply job_ok_intact; [exact Hok | apply Hwf; exact He]).
   repeat split.
   - intros Ht e He. rewrite I1, forallb_forall in Ht. rewrite <- Hext by exact He. apply Ht; exact He.
@@ -298,7 +299,7 @@ Qed.
 (* collect mode (the Error callback of cmd_restore swallows each error): exactly the differing files are reported *)
 Lemma verify_collect_exact fl es :
   repo_ok -> jobs_wf fl es ->
-  fst (verify_files_collect H size_of fl es)
+  fst (verify_files_collect H size_of ow fl es)
   = map e_loc (filter (fun e => negb (e_intact bt e)) (jobs fl es)).
 Proof.
   intros Hok Hwf. unfold verify_files_collect. cbn [fst]. f_equal.
@@ -311,6 +312,7 @@ End Verify.
 Section Oracle.
 Variable H : bytes -> id.
 Variable bt : blobtab.
+Variable vow : overwrite.
 Notation size_of := (lookup_size bt).
 
 Lemma wf_nodeb_spec n : wf_nodeb bt n = true <-> exists d, wf_node bt n d.
@@ -403,16 +405,16 @@ Qed.
 
 Lemma model_sat_oracle_all ht fl es :
   repo_ok H bt -> (forall e, In e (jobs fl es) -> sp_free H bt (n_content (e_node e))) ->
-  let a := verify_files_abort H size_of fl es in
-  let k := verify_files_collect H size_of fl es in
-  check_C21 (CAll bt ht fl es (fst a) (snd a) (fst k) (snd k)) = true.
+  let a := verify_files_abort H size_of vow fl es in
+  let k := verify_files_collect H size_of vow fl es in
+  check_C21 (CAll bt ht vow fl es (fst a) (snd a) (fst k) (snd k)) = true.
 Proof.
   intros Hok Hsp a k. unfold check_C21, oracle_code.
   destruct (forallb (fun e => wf_nodeb bt (e_node e)) (jobs fl es)) eqn:Ew; [|reflexivity].
   assert (Hjw : jobs_wf H bt fl es).
   { intros e He. rewrite forallb_forall in Ew. specialize (Ew e He).
     apply wf_nodeb_spec in Ew as [d Hwf]. exists d. split; [exact Hwf | apply Hsp; exact He]. }
-  destruct (verify_all_iff H bt fl es Hok Hjw) as (A1 & A2 & A3). fold a in A1, A2, A3.
+  destruct (verify_all_iff H bt vow fl es Hok Hjw) as (A1 & A2 & A3). fold a in A1, A2, A3.
   assert (E1 : fst a = forallb (e_intact bt) (jobs fl es)).
   { destruct (fst a) eqn:Ea.
     - symmetry. apply forallb_forall. apply A1. reflexivity.
@@ -426,7 +428,7 @@ Proof.
     - apply N.eqb_eq. apply A2. reflexivity.
     - destruct (A3 eq_refl) as [B1 B2]. apply andb_true_iff. split; [apply N.ltb_lt | apply N.leb_le]; assumption. }
   rewrite E2. cbn [negb].
-  subst k. rewrite (verify_collect_exact H bt fl es Hok Hjw).
+  subst k. rewrite (verify_collect_exact H bt vow fl es Hok Hjw).
   assert (E3 : forall l, list_eqb bytes_eqb l l = true)
     by (intros l; apply (list_eqb_spec bytes_eqb bytes_eqb_spec); reflexivity).
   rewrite E3. reflexivity.
@@ -474,8 +476,8 @@ Proof.
   destruct nr; cbn; split; congruence.
 Qed.
 
-Lemma oracle_all_sound bt ht fl es ok cnt rep cnt2 :
-  check_C21 (CAll bt ht fl es ok cnt rep cnt2) = true ->
+Lemma oracle_all_sound bt ht ow fl es ok cnt rep cnt2 :
+  check_C21 (CAll bt ht ow fl es ok cnt rep cnt2) = true ->
   (forall e, In e (jobs fl es) -> exists d, wf_node bt (e_node e) d) ->
   (ok = true <-> forall e, In e (jobs fl es) -> e_intact bt e = true) /\
   (ok = true -> cnt = N.of_nat (length (jobs fl es))) /\
@@ -500,13 +502,13 @@ Proof.
 Qed.
 
 (* any processing order of the jobs (worker schedule) gives the same verdict *)
-Lemma verdict_perm H sz (js js' : list entry) :
-  Permutation js js' -> forallb (job_ok H sz) js = forallb (job_ok H sz) js'.
+Lemma verdict_perm H sz ow (js js' : list entry) :
+  Permutation js js' -> forallb (job_ok H sz ow) js = forallb (job_ok H sz ow) js'.
 Proof.
   induction 1 as [|x l l' _ IH|x y l|l l' l'' _ IH1 _ IH2]; cbn [forallb].
   - reflexivity.
   - rewrite IH. reflexivity.
-  - destruct (job_ok H sz x), (job_ok H sz y); reflexivity.
+  - destruct (job_ok H sz ow x), (job_ok H sz ow y); reflexivity.
   - rewrite IH1. exact IH2.
 Qed.
 
@@ -533,10 +535,10 @@ Example c21_nonvacuous :
      = VState (Some [false; true; true]) true
   /\ verify_file (tab_hash Ex.ht) (lookup_size Ex.bt) false false false (FReg [1;2;3;4]%N) Ex.n1
      = VState (Some [true; true; false]) false
-  /\ verify_files_abort (tab_hash Ex.ht) (lookup_size Ex.bt)
+  /\ verify_files_abort (tab_hash Ex.ht) (lookup_size Ex.bt) OwIfChanged
        [(str "/a"%string, false); (str "/b"%string, true)]
-       [mkEntry (str "/a"%string) true Ex.n1 (FReg Ex.good); mkEntry (str "/b"%string) true Ex.n1 (FReg []);
-        mkEntry (str "/c"%string) true Ex.n1 FAbsent] = (true, 1%N)
+       [mkEntry (str "/a"%string) true Ex.n1 (FReg Ex.good) true; mkEntry (str "/b"%string) true Ex.n1 (FReg []) true;
+        mkEntry (str "/c"%string) true Ex.n1 FAbsent false] = (true, 1%N)
   /\ track (tab_hash Ex.ht) (lookup_size Ex.bt) OwAlways false false (FReg Ex.good) Ex.n1 = Some true
   /\ track (tab_hash Ex.ht) (lookup_size Ex.bt) OwNever false false (FReg Ex.good) Ex.n1 = None.
 Proof. vm_compute. repeat split. Qed.
